@@ -22,7 +22,7 @@ CONSTANTS Elems,       \* pool of brick elements (strings)
 Null == [null |-> TRUE]
 ElemsQuick == {<< >>, <<97>>, <<98, 97>>}
 ElemsThorough == {<< >>, <<97>>, <<98>>, <<97, 98>>, <<98, 98>>}
-MidSetsQuick == {{}, {<<97>>}, {<< >>, <<98, 97>>}}
+MidSetsQuick == {{<<97>>}, {<< >>, <<98, 97>>}}
 MidSetsThorough == {S \in SUBSET ElemsThorough : Cardinality(S) <= 2}
 
 SeqOf(S) == LET RECURSIVE F(_)
